@@ -6,15 +6,16 @@ CONSTANTS
   Corrupt = "corrupt"
   Udp = TRUE
   DefSched <- Sched_12
-  DefLast = 2
+  DefLast = 1
   IdleWait = 3600
   ServerKey = "k1"
   ClientKeys = {"k1", "k2"}
   SealedOpts = {TRUE, FALSE}
-  MaxTime = 6
+  MaxTime = 5
   TickSet = {1}
   MaxDup = 1
   MaxLoss = 1
+  MaxFlight = 2
 INVARIANTS AtMostOnce BoundedTransmissions GhostAgrees ValidatedOnlyAfterResponse
 PROPERTIES LateDropped NoUnauthenticatedCompletion
 VIEW core
